@@ -58,6 +58,7 @@ type creplay struct {
 	unknown string
 	effects []*Term
 	depth   int
+	split   *[2]lin // an ordering a <= b that the facts leave open and a placement needed (first one met)
 }
 
 func (r *creplay) clone() *creplay {
@@ -182,6 +183,21 @@ func (r *creplay) nonneg(d lin) bool {
 	return false
 }
 func (r *creplay) le(a, b lin) bool { return r.nonneg(b.add(a, -1)) }
+
+// openOrder notes the first of the given orderings a <= b that is neither provable nor refutable: the caller of the replay
+// may then replay the path once under a <= b and once under b < a.
+func (r *creplay) openOrder(pairs ...[2]lin) {
+	if r.split != nil {
+		return
+	}
+	for _, pr := range pairs {
+		a, b := pr[0], pr[1]
+		if !r.nonneg(b.add(a, -1)) && !r.nonneg(a.add(b, -1).add(linConst(1), -1)) {
+			r.split = &[2]lin{a, b}
+			return
+		}
+	}
+}
 func (r *creplay) eq(a, b lin) bool { return r.le(a, b) && r.le(b, a) }
 
 func (l lin) hasLoopVar() bool {
@@ -221,6 +237,7 @@ func (r *creplay) sub(s cseq, lo, hi lin) (cseq, bool) {
 		case r.le(off, lo) && r.le(lo, end):
 			start = lo
 		default:
+			r.openOrder([2]lin{lo, off}, [2]lin{end, lo}, [2]lin{lo, end})
 			return nil, false
 		}
 		switch {
@@ -232,6 +249,7 @@ func (r *creplay) sub(s cseq, lo, hi lin) (cseq, bool) {
 		case r.le(off, hi) && r.le(hi, end):
 			stop = hi
 		default:
+			r.openOrder([2]lin{end, hi}, [2]lin{hi, off}, [2]lin{hi, end})
 			return nil, false
 		}
 		if !(r.le(stop, start) && r.le(start, stop)) {
@@ -249,6 +267,7 @@ func (r *creplay) sub(s cseq, lo, hi lin) (cseq, bool) {
 		}
 		out = append(out, cseg{"junk", linConst(0), hi.add(from, -1)})
 	default:
+		r.openOrder([2]lin{hi, off})
 		return nil, false
 	}
 	return out, true
@@ -552,6 +571,7 @@ func (r *creplay) effect(ef *Term) {
 		case r.le(dn, sn):
 			n = dn
 		default:
+			r.openOrder([2]lin{sn, dn})
 			r.fail("cannot decide which operand of copy is shorter")
 			return
 		}
@@ -881,7 +901,7 @@ func (r *creplay) fillLoop(gc *GCNF, k int, entry *GC) bool {
 			if V.o == S.o {
 				// shifting within one array: reads must stay ahead of the writes
 				d := V.lo.add(C, 1).add(S.lo, -1).add(B, -1)
-				if !(len(d.c) == 0 && ((step == 1 && d.k >= 0) || (step == -1 && d.k <= 0))) {
+				if !((step == 1 && r.nonneg(d)) || (step == -1 && r.nonneg(linConst(0).add(d, -1)))) {
 					r.fail(fmt.Sprintf("loop %d shifts elements within one array against the direction of the loop (values smear)", k))
 					return false
 				}
@@ -1017,64 +1037,83 @@ func ruleR40(c *Ctx) *RuleResult {
 				if g.From != 0 {
 					continue
 				}
-				o0 := &cobj{content: cseq{{"old", linConst(0), L0}}}
-				rp := &creplay{field: field, subst: map[string]lin{}, F: cval{o0, linConst(0), L0}, byVer: map[string]cval{}, objs: map[string]*cobj{}, nstores: map[string]int{}, res: map[string]cval{}, liveInt: map[string]lin{}, liveSl: map[string]cval{}}
-				rp.mark()
-				rp.run(gc, g, func(e *creplay, last *GC) {
-					if e.unknown != "" {
-						undecided = append(undecided, e.unknown)
-						return
-					}
-					got, ok := e.content(e.F)
-					if !ok {
-						undecided = append(undecided, e.unknown)
-						return
-					}
-					np := len(fn.Params)
-					lastP := "p:" + itoa(np-1)
-					i := linAtom("p:1")
-					in0 := e.le(linConst(0), i)
-					old := func(lo, hi lin) cseg { return cseg{"old", lo, hi} }
-					vals := cseg{"v:" + lastP, linConst(0), linAtom("(len " + lastP + ")")}
-					one := i.add(linConst(1), 1)
-					var want cseq
-					switch name {
-					case "Add", "Append":
-						want = cseq{old(linConst(0), L0), vals}
-					case "Insert":
-						if in0 && e.le(i, L0) {
-							want = cseq{old(linConst(0), i), vals, old(i, L0)}
-						} else {
-							want = cseq{old(linConst(0), L0)}
+				var replay func(extra []lin, depth int)
+				replay = func(extra []lin, depth int) {
+					o0 := &cobj{content: cseq{{"old", linConst(0), L0}}}
+					rp := &creplay{field: field, subst: map[string]lin{}, F: cval{o0, linConst(0), L0}, byVer: map[string]cval{}, objs: map[string]*cobj{}, nstores: map[string]int{}, res: map[string]cval{}, liveInt: map[string]lin{}, liveSl: map[string]cval{}}
+					rp.facts = append(rp.facts, extra...)
+					rp.mark()
+					rp.run(gc, g, func(e *creplay, last *GC) {
+						// a placement that depends on an ordering the facts leave open: replay the path under each alternative
+						retry := func() bool {
+							if e.split == nil || depth >= 5 {
+								return false
+							}
+							a, b := e.split[0], e.split[1]
+							replay(append(append([]lin(nil), extra...), b.add(a, -1)), depth+1)                      // a <= b
+							replay(append(append([]lin(nil), extra...), a.add(b, -1).add(linConst(1), -1)), depth+1) // b < a
+							return true
 						}
-					case "Remove":
-						if in0 && e.le(one, L0) {
-							want = cseq{old(linConst(0), i), old(one, L0)}
-						} else {
-							want = cseq{old(linConst(0), L0)}
+						if e.unknown != "" {
+							if !retry() {
+								undecided = append(undecided, e.unknown)
+							}
+							return
 						}
-					case "Set":
-						v := cseg{"e:" + lastP, linConst(0), linConst(1)}
-						switch {
-						case in0 && e.le(one, L0):
-							want = cseq{old(linConst(0), i), v, old(one, L0)}
-						case e.eq(i, L0):
-							want = cseq{old(linConst(0), L0), v}
+						got, ok := e.content(e.F)
+						if !ok {
+							if !retry() {
+								undecided = append(undecided, e.unknown)
+							}
+							return
+						}
+						np := len(fn.Params)
+						lastP := "p:" + itoa(np-1)
+						i := linAtom("p:1")
+						in0 := e.le(linConst(0), i)
+						old := func(lo, hi lin) cseg { return cseg{"old", lo, hi} }
+						vals := cseg{"v:" + lastP, linConst(0), linAtom("(len " + lastP + ")")}
+						one := i.add(linConst(1), 1)
+						var want cseq
+						switch name {
+						case "Add", "Append":
+							want = cseq{old(linConst(0), L0), vals}
+						case "Insert":
+							if in0 && e.le(i, L0) {
+								want = cseq{old(linConst(0), i), vals, old(i, L0)}
+							} else {
+								want = cseq{old(linConst(0), L0)}
+							}
+						case "Remove":
+							if in0 && e.le(one, L0) {
+								want = cseq{old(linConst(0), i), old(one, L0)}
+							} else {
+								want = cseq{old(linConst(0), L0)}
+							}
+						case "Set":
+							v := cseg{"e:" + lastP, linConst(0), linConst(1)}
+							switch {
+							case in0 && e.le(one, L0):
+								want = cseq{old(linConst(0), i), v, old(one, L0)}
+							case e.eq(i, L0):
+								want = cseq{old(linConst(0), L0), v}
+							default:
+								want = cseq{old(linConst(0), L0)}
+							}
+						case "Clear":
+							want = nil
 						default:
 							want = cseq{old(linConst(0), L0)}
 						}
-					case "Clear":
-						want = nil
-					default:
-						want = cseq{old(linConst(0), L0)}
-					}
-					gs, ws := e.norm(got).String(), e.norm(want).String()
-					if gs == ws {
-						outcomes[ws] = true
-					} else {
-						bad = append(bad, fmt.Sprintf("a path leaves %s = %s where the operation means %s: %s", field, gs, ws, trunc(last.String(), 300)))
-					}
-				})
+						gs, ws := e.norm(got).String(), e.norm(want).String()
+						if gs == ws {
+							outcomes[ws] = true
+						} else {
+							bad = append(bad, fmt.Sprintf("a path leaves %s = %s where the operation means %s: %s", field, gs, ws, trunc(last.String(), 300)))
+						}
+					})
+				}
+				replay(nil, 0)
 			}
 			var oc []string
 			for o := range outcomes {
